@@ -937,7 +937,7 @@ func ruleNoDrop(w *World, r *Report) {
 			}
 		}
 	}
-	if n < 8 {
+	if n < 4 {
 		r.bad("N-NODROP", "sites", "", fmt.Sprintf("only %d operand pulls in loops found", n))
 	}
 }
